@@ -78,7 +78,7 @@ def confirm(src, pid, k, checks):
     d = os.path.join(src, pid, f"m{k}")
     meta, dpath, drun = demo_info(d)
     wt = f"/tmp/wt-seed-{pid}-{os.environ.get('SEED_TAG', '')}m{k}"
-    out = {"property": pid, "mutant": f"m{k}", "summary": meta.get("summary"), "breaks": meta.get("breaks"), "files": meta.get("files"),
+    out = {"property": pid, "mutant": f"m{k}", "summary": meta.get("summary"), "breaks": meta.get("breaks"), "needs": meta.get("needs"), "files": meta.get("files"),
            "functions": meta.get("functions"), "base_commit": sh(f"git -C {REPO} rev-parse --short HEAD")[1].strip()}
     worktree(wt)
     try:
